@@ -85,3 +85,9 @@ Locks.vos Locks.vok Locks.required_vos: Locks.v
 LocksFacts.vo LocksFacts.glob LocksFacts.v.beautified LocksFacts.required_vo: LocksFacts.v Locks.vo
 LocksFacts.vio: LocksFacts.v Locks.vio
 LocksFacts.vos LocksFacts.vok LocksFacts.required_vos: LocksFacts.v Locks.vos
+Previous.vo Previous.glob Previous.v.beautified Previous.required_vo: Previous.v Collection.vo Store.vo
+Previous.vio: Previous.v Collection.vio Store.vio
+Previous.vos Previous.vok Previous.required_vos: Previous.v Collection.vos Store.vos
+PreviousFacts.vo PreviousFacts.glob PreviousFacts.v.beautified PreviousFacts.required_vo: PreviousFacts.v Bytes.vo Segment.vo Stack.vo StackFacts.vo Collection.vo CollectionFacts.vo Store.vo StoreFacts.vo Previous.vo
+PreviousFacts.vio: PreviousFacts.v Bytes.vio Segment.vio Stack.vio StackFacts.vio Collection.vio CollectionFacts.vio Store.vio StoreFacts.vio Previous.vio
+PreviousFacts.vos PreviousFacts.vok PreviousFacts.required_vos: PreviousFacts.v Bytes.vos Segment.vos Stack.vos StackFacts.vos Collection.vos CollectionFacts.vos Store.vos StoreFacts.vos Previous.vos
